@@ -61,6 +61,13 @@ def make_rsa(rng, clsmap):
       arts[slot] = checks.Art(aid, 'rsa', art.rsa_key(src.meta['n']), 'sharedprime', **dict(src.meta))
     elif c in ('prime', 'even', 'square', 'pow2', 'oddlen', 'bits64', 'bits65', 'three', 'huge_e', 'empty_e'):
       arts[slot] = gen.rsa_degenerate(rng, aid, c)
+    elif c.startswith('bits') and c[4:].isdigit() and c not in ('bits64', 'bits65'):
+      b_ = int(c[4:])
+      for _ in range(500):
+        nn = art.rand_prime_top2(rng, (b_ + 1) // 2) * art.rand_prime(rng, b_ - (b_ + 1) // 2 + 1)
+        if nn.bit_length() == b_:
+          break
+      arts[slot] = checks.Art(aid, 'rsa', art.rsa_key(nn), 'deg-' + c, n=nn, e=65537, crit={x: 'may' for x in gen.RSA_CHECKS})
     elif c == 'pattern4096':
       from pv import weak
       k = None
@@ -112,6 +119,13 @@ def make_ec(rng, clsmap):
       arts[slot] = gen.ec_key(rng, slot, 'secp192r1', cls='healthy')
     elif c == 'weakprivate':
       arts[slot] = gen.ec_weak_private(rng, slot, 'secp256r1')
+    elif c == 'weakprivateneg':
+      # private key n - (32-bit value << 8j): the search finds it as a NEGATIVE logarithm
+      rc = gen.named_curves()['secp256r1'][2]
+      j = 8 * rng.randrange(0, 20)
+      a = gen.ec_key(rng, slot, 'secp256r1', d=rc.n - ((rng.randrange(2, 2 ** 15) | 1) << j), cls='weakprivate')
+      a.meta['crit'] = dict(a.meta['crit'], CheckWeakECPrivateKey='may')
+      arts[slot] = a
     elif c == 'weakprivatetop':
       # a 32-bit private value at the far end of the searched range (last giant steps)
       a = gen.ec_key(rng, slot, 'secp256r1', d=rng.randrange(2 ** 32 - 2 ** 20, 2 ** 32), cls='weakprivate')
@@ -132,7 +146,7 @@ def make_ec(rng, clsmap):
       arts[slot] = gen.ec_unknown_curve(rng, slot, rng.randrange(7, 17))
     elif c == 'curve25':
       arts[slot] = gen.ec_unknown_curve(rng, slot, 25)
-    elif c == 'copy1':
+    elif c in ('copy1', 'unreduced1', 'unreducedx1', 'unreducedy1'):
       arts[slot] = None
     else:
       raise ValueError(c)
@@ -140,6 +154,23 @@ def make_ec(rng, clsmap):
     if c == 'copy1':
       src = arts.get('s1')
       arts[slot] = gen.ec_key(rng, slot, 'secp256r1') if (src is None or slot == 's1') else gen.ec_copy(src, slot)
+    elif c in ('unreduced1', 'unreducedx1', 'unreducedy1'):
+      # the key of slot s1 with coordinates congruent to, but larger than, the field prime (x + p, y) or (x, y + p)
+      src = arts.get('s1')
+      if src is None or slot == 's1' or src.meta.get('curve') is None:
+        arts[slot] = gen.ec_key(rng, slot, 'secp256r1')
+      else:
+        rc = gen.named_curves()[src.meta['curve']][2]
+        x = art.b2i(src.proto.ec_info.x)
+        y = art.b2i(src.proto.ec_info.y)
+        if c == 'unreducedx1' or (c == 'unreduced1' and rng.random() < 0.5):
+          x += rc.p
+        else:
+          y += rc.p
+        crit = {k: 'may' for k in gen.EC_CHECKS}
+        crit['CheckValidECKey'] = 'must'
+        arts[slot] = checks.Art(slot, 'ec', art.ec_key(src.proto.ec_info.curve_type, x, y), 'invalid-unreduced', curve=src.meta['curve'],
+                                point=(x, y), crit=crit)
   return arts
 
 
@@ -156,6 +187,23 @@ def make_ecdsa(rng, clsmap):
       groups[slot] = gen.healthy_sigs(rng, slot + '-', 'secp384r1', 3)
     elif c == 'healthy521':
       groups[slot] = gen.healthy_sigs(rng, slot + '-', 'secp521r1', 3)
+    elif c == 'healthyk1':
+      groups[slot] = gen.healthy_sigs(rng, slot + '-', 'secp256k1', 3)
+    elif c == 'healthy12':
+      groups[slot] = gen.healthy_sigs(rng, slot + '-', 'secp256r1', 12)
+    elif c == 'lcgA':
+      # nonces from GMP's truncated LCG (size 32) through the system libgmp: the LCG check must flag them
+      from pv import drive_C08
+      rc = nc['secp256r1'][2]
+      d = rng.randrange(2 ** 200, rc.n)
+      ks = drive_C08.nonce_gen('lcg', rc, 32, rng, 4)
+      if ks is None:
+        groups[slot] = gen.healthy_sigs(rng, slot + '-', 'secp256r1', 3)
+      else:
+        sigs = [gen.ecdsa_sig(rng, '%s-%d' % (slot, i), 'secp256r1', d, k, 'lcg32') for i, k in enumerate(ks)]
+        for sg in sigs:
+          sg.meta['crit'] = dict({x: 'may' for x in gen.ECDSA_CHECKS}, CheckLCGNonceGMP='must', CheckIssuerKey='mustnot')
+        groups[slot] = sigs
     elif c in ('close192A', 'close192B'):
       if close192 is None:
         close192 = rng.randrange(2 ** 150, 2 ** 180)
